@@ -149,6 +149,15 @@ def variant_files(v):
         f['../tc.bfg'] = ("environ['CFLAGS'] = environ.get('CFLAGS', '') + "
                           "' -DTC'\n"
                           "environ['LDFLAGS'] = '-Ltc'\n")
+    elif v == 'hdrnodist':
+        # a searched header directory that is installed but kept out of the
+        # source distribution: its file list still feeds the install rules
+        f['build.bfg'] = ("project('p')\n"
+                          "inc = header_directory('include', include='*.h', "
+                          "dist=False)\n"
+                          "dd = directory('lib', include='*.c', dist=False)\n"
+                          "executable('prog', ['main.c'], includes=[inc])\n"
+                          "install(inc)\n")
     elif v == 'custom':
         # one search with a filter function of the script's own (which no
         # cache can replay) next to a plain, cacheable one
@@ -342,7 +351,7 @@ def main(argv):
                 # a change only the extra= / not-now side of a search sees
                 ['add_other', 'add_extra'], ['add_extra', 'add_match']]
     variants = ['find', 'findrec', 'findrec2', 'hdrdir', 'sub', 'pkg',
-                'missingbase', 'toolchain', 'custom']
+                'missingbase', 'toolchain', 'custom', 'hdrnodist']
     for v in variants:
         for b in (('make', 'ninja') if not ck.quick else ('make',)):
             for d in directed:
